@@ -1237,7 +1237,11 @@ class NumpyStub:
         return res
 
     def f_hstack(self, arrs, **k):
-        arrs = [self.f_atleast_1d(x) for x in self.I.iterate(arrs)]
+        arrs = list(self.I.iterate(arrs))
+        if any(isinstance(x, TArr) for x in arrs):
+            from . import tarr
+            return tarr.hstack(self, arrs)
+        arrs = [self.f_atleast_1d(x) for x in arrs]
         if arrs and arrs[0].ndim == 1:
             return self.f_concatenate(arrs, 0)
         return self.f_concatenate(arrs, 1)
